@@ -91,9 +91,9 @@ def run(ctx):
                             args=["-dump", "dot,actionlabels", dot])
         _, edges, init = graph.parse_dot(dot)
         os.unlink(dot)
-        walks = graph.edge_cover(edges, init, max_len=12, limit=ctx.pick(400, 6000))
+        walks = graph.edge_cover(edges, init, max_len=12, limit=ctx.pick(400, 2500))
         data, _ = ctx.generate("Gen_C11", cfg_text="INIT GenInit\nNEXT GenNext\n" + _cfg(2, 2, sa, chains="{1, 2, 3}", frag=True).replace("SPECIFICATION LSpec\n", "")
-                               + " HLen = %s\n HN = %d\n NU = 20\n" % ctx.pick(("{6, 10}", 40), ("{6, 10, 14}", 250)), env=ENV,
+                               + " HLen = %s\n HN = %d\n NU = 20\n" % ctx.pick(("{6, 10}", 40), ("{6, 10, 14}", 100)), env=ENV,
                                out="gen_c11_%s.json" % sa)
         univ = {repr(sorted(x["a"].items())): x["u"] for x in data["univ"]}
         ulist = [x["u"] for x in data["univ"]]
@@ -118,14 +118,14 @@ def run(ctx):
         urls = sorted(urls)
         step = max(1, len(urls) // 20)
         urls = urls[::step][:20]
-        for i, h in enumerate(hist[:ctx.pick(30, 300)]):
+        for i, h in enumerate(hist[:ctx.pick(30, 200)]):
             cases.append({"cls": cls, "sa": i % 2 == 1, "urls": urls, "ops": [[(t[0] - 1) % len(urls), VALS[t[1] - 1], t[2]] for t in h]})
 
     def nontrivial(c, tr):
         ks = [o[0] for o in c["ops"]]
         return c["id"] if len(set(ks)) < len(ks) or any(e.get("len", 0) > 1 for e in tr[1:]) else None
     failing = core.judge_traces(ctx, "harness.checks.c11", cases, "Trace_C11", _cfg(1, 1, False, spec="TrSpec"), describe, env=ENV,
-                                nontrivial=nontrivial, shard=1500, chunk=20)
+                                nontrivial=nontrivial, shard=1500, chunk=20, heap="2g")
     ctx.exhaustive = not ctx.quick
     ctx.rule = ("histories: edge cover of the complete reachable graph of C11.tla (8-URL universe over a co.uk host chain, 2 values, both suffix modes) "
                 "replayed on LRUTrie with set / set_lru(str) / set_lru(stems) rotating; TLC RandomSubset histories over a ~60-URL slice (every URL with all its trailing-slash / query / fragment variants, raw paths with empty inner segments); "
